@@ -82,6 +82,8 @@ struct Client {
     conn: Option<Conn>,
     /// a complete request was sent before the signal
     request_sent: bool,
+    /// when the request had been written completely
+    sent_at: Instant,
 }
 
 fn target_addr(a: SocketAddr) -> SocketAddr {
@@ -125,7 +127,7 @@ pub fn run_scenario(r: &mut Report, app: &mut dyn RunningApp, sc: &Scenario, sid
             let mut c = match Conn::open(addr) {
                 Ok(c) => c,
                 Err(_) => {
-                    clients.push(Client { state: st.clone(), id, conn: None, request_sent: false });
+                    clients.push(Client { state: st.clone(), id, conn: None, request_sent: false, sent_at: Instant::now() });
                     continue;
                 }
             };
@@ -151,7 +153,7 @@ pub fn run_scenario(r: &mut Report, app: &mut dyn RunningApp, sc: &Scenario, sid
                 }
             }
             r.count("connections_opened", 1);
-            clients.push(Client { state: st.clone(), id, conn: Some(c), request_sent: sent });
+            clients.push(Client { state: st.clone(), id, conn: Some(c), request_sent: sent, sent_at: Instant::now() });
         }
     };
     let t_signal;
@@ -171,7 +173,8 @@ pub fn run_scenario(r: &mut Report, app: &mut dyn RunningApp, sc: &Scenario, sid
                     }
                 }
             }
-            std::thread::sleep(Duration::from_millis(30));
+            // long enough for every connection to have been accepted and handed to a worker or queued behind the busy ones
+            std::thread::sleep(Duration::from_millis(120));
             t_signal = Instant::now();
             (app.take_signaller())();
         }
@@ -268,6 +271,10 @@ pub fn run_scenario(r: &mut Report, app: &mut dyn RunningApp, sc: &Scenario, sid
                             } else {
                                 r.inconclusive(format!("in-flight response for {:?} not received within 15 s", c.state));
                             }
+                        } else if sc.when == When::AfterTrafficSettled && c.request_sent && conn.eof && t_signal.saturating_duration_since(c.sent_at) >= Duration::from_millis(100) {
+                            // not racing: the request had been sent (and the connection accepted and queued behind busy
+                            // workers) at least 100 ms before the signal; queued work is finished after shutdown, not discarded
+                            r.violation(&format!("C20/queued-request-dropped:{}", rt), format!("[{}] a {:?} request sent {} ms before the signal, waiting behind occupied workers (pool {}), was closed without a response", rt, c.state, t_signal.saturating_duration_since(c.sent_at).as_millis(), sc.pool), ex("queued request dropped"), replay.to_vec());
                         } else {
                             r.count("racing_connections_got_nothing", 1);
                         }
